@@ -55,6 +55,17 @@ def log(*a):
     print(*a, file=sys.stderr, flush=True)
 
 
+def _raise_stack():
+    # coqc parses big list literals recursively ("Error: Stack overflow." at ~10^5 elements with the
+    # default 8 MiB stack); children get the hard limit
+    import resource
+    try:
+        soft, hard = resource.getrlimit(resource.RLIMIT_STACK)
+        resource.setrlimit(resource.RLIMIT_STACK, (hard, hard))
+    except (ValueError, OSError):
+        pass
+
+
 def sh(cmd, timeout, cwd=None, env=None, check=True):
     e = dict(os.environ)
     e["CARGO_NET_OFFLINE"] = "true"
@@ -62,7 +73,7 @@ def sh(cmd, timeout, cwd=None, env=None, check=True):
         e.update(env)
     try:
         p = subprocess.run(cmd, cwd=cwd, env=e, timeout=timeout, stdout=subprocess.PIPE,
-                           stderr=subprocess.STDOUT, text=True)
+                           stderr=subprocess.STDOUT, text=True, preexec_fn=_raise_stack)
     except subprocess.TimeoutExpired as ex:
         out = ex.stdout if isinstance(ex.stdout, str) else (ex.stdout or b"").decode("utf8", "replace")
         return 124, out + "\n[timeout after %ss]" % timeout
